@@ -3628,7 +3628,7 @@ def to_base(lhs, rhs, ctx):
         rhs = list(range(0, int(rhs)))
     else:
         rhs = iterable(rhs, ctx=ctx)
-    if len(rhs) == 1:
+    if len(rhs) == 1 or lhs == 0:
         maximal_exponent = lhs
     else:
         maximal_exponent = int(log_mold_multi(lhs, len(rhs), ctx))
